@@ -181,6 +181,8 @@ DepsDefined(s) == \A a \in Names : \A k \in DOMAIN s.src[a].deps : s.src[a].deps
 ReplaceCset(s, n) ==
   LET v == Inj(s.inj + 1) IN
   [s |-> [s EXCEPT !.pv[n] = v, !.inj = @ + 1, !.stale = @ \cup Dependents(s, n)], log |-> <<IReplaced(n, v)>>]
+\* the public call: only preserved csets can be replaced
+TryReplace(s, n) == IF n \in s.pres THEN LET r == ReplaceCset(s, n) IN Out(r.s, r.log, "ok") ELSE Out(s, <<>>, "KeyError")
 \* engine.add_cset / add_preserved_cset (n, source d)
 AddCset(s, n, d, preserved) ==
   [s EXCEPT !.src[n] = d,
@@ -228,7 +230,7 @@ RunHook(s, F, h) ==
   LET s0 == IF RegenPerHook THEN [s EXCEPT !.hv = [n \in Names |-> NoVal], !.stale = {}] ELSE s
   IN RunFrom(s0, F, h, Sorted(s.hooks[h]), 1, <<IHook(h)>>)
 \* engine.csets[n] outside of any hook (get_merged_cset reads "install")
-Peek(s, n) == LET r == Lookup(s, n) IN Out(r.s, r.log, "ok")
+Peek(s, n) == IF ~s.src[n].def THEN Out(s, <<>>, "KeyError") ELSE LET r == Lookup(s, n) IN Out(r.s, r.log, "ok")
 
 (* ---------- what the user relies on, as predicates over one hook run ---------- *)
 Sel(log, K)  == SelectSeq(log, LAMBDA x : x.k \in K)
@@ -328,7 +330,10 @@ UnmergeHooks == <<"pre_unmerge", "unmerge", "post_unmerge">>
 EnvCalls == {"preinst", "postinst", "prerm", "postrm", "add_data", "remove_data", "repo_finish"}
 
 \* o = [mode, done (completed stages), eng, live (an engine exists), locks (acquire - release), tmps (tempspaces on disk)]
-OpNew(m) == [mode |-> m, done |-> {}, eng |-> New(m), live |-> FALSE, locks |-> 0, tmps |-> 0]
+\* A `start` stage that failed is run again by the next finish(): it builds a new engine in a new tempspace and takes
+\* the lock again (that is what the code does; the first tempspace and the first acquisition are never given back).
+OpNew(m) == [mode |-> m, done |-> {}, eng |-> New(m), live |-> FALSE, locks |-> 0, tmps |-> 0,
+             starts |-> 0]                       \* ghost: how often the `start` stage was entered
 
 RECURSIVE HooksFrom(_, _, _, _, _)
 HooksFrom(s, F, hs, k, log) ==
@@ -345,10 +350,10 @@ StageBody(o, F, E, FmtTrigs, DomTrigs, st) ==
              e1 == IF c.res = "ok" THEN RegisterAll(c.s, FmtTrigs, 1) ELSE c
              e2 == IF e1.res = "ok" THEN RegisterAll(e1.s, DomTrigs, 1) ELSE e1
              r  == RunHook(e2.s, F, "sanity_check")
-         IN IF c.res # "ok" THEN Out([o EXCEPT !.tmps = @ + 1], <<>>, c.res)
-            ELSE IF e2.res # "ok" THEN Out([o EXCEPT !.eng = e2.s, !.live = TRUE, !.tmps = @ + 1],
+         IN IF c.res # "ok" THEN Out([o EXCEPT !.tmps = @ + 1, !.starts = @ + 1], <<>>, c.res)
+            ELSE IF e2.res # "ok" THEN Out([o EXCEPT !.eng = e2.s, !.live = TRUE, !.tmps = @ + 1, !.starts = @ + 1],
                                            <<IOp("fmt", "add_triggers")>>, e2.res)
-            ELSE Out([o EXCEPT !.eng = r.s, !.live = TRUE, !.locks = @ + 1, !.tmps = @ + 1],
+            ELSE Out([o EXCEPT !.eng = r.s, !.live = TRUE, !.locks = @ + 1, !.tmps = @ + 1, !.starts = @ + 1],
                      <<IOp("fmt", "add_triggers"), IOp("lock", "acquire")>> \o r.log, r.res)
     [] st = "preinst"  -> EnvStep(o, E, "fmt", "preinst")
     [] st = "postinst" -> EnvStep(o, E, "fmt", "postinst")
@@ -380,6 +385,12 @@ FinishFrom(o, F, E, FT, DT, k, log) ==
        ELSE Out(r.s, log \o r.log, r.res)             \* "false": finish() returns it; anything else: raised
 \* op.finish(): every stage that has not been completed yet, in order, until one fails
 Finish(o, F, E, FT, DT) == FinishFrom(o, F, E, FT, DT, 1, <<>>)
+
+\* the operation object is dropped (an operation that failed is given up): the lock it still holds is released,
+\* its tempspace removed; nothing happens once finish() has completed
+Unfinished(o) == "finish" \notin o.done
+Abandon(o) == [o EXCEPT !.locks = IF Unfinished(o) /\ @ > 0 THEN @ - 1 ELSE @,
+                        !.tmps  = IF Unfinished(o) /\ @ > 0 THEN @ - 1 ELSE @]
 
 (* user level statements about one finish() call; o is the operation state it started from *)
 StageLevel(log) == Sel(log, {"hook", "lock", "fmt", "repo"})
